@@ -472,6 +472,30 @@ func c07Lifecycle(code *gojq.Code, in any) (msg string) {
 					return fmt.Sprintf("Next returned (%v, true) after exhaustion once the context was cancelled", v)
 				}
 			}
+			// an exhausted iterator stays exhausted when the same Code is run again, and the new run is a run of its own
+			other := []any{7, []any{8}, map[string]any{"a": 9}}
+			want := Drain(code.RunWithContext(probe.NewPollCtx(5000), univ.Copy(other)), nil, 60).String()
+			it2 := code.RunWithContext(probe.NewPollCtx(5000), univ.Copy(other))
+			if v, ok := it.Next(); ok {
+				return fmt.Sprintf("an exhausted iterator returned (%v, true) after another run of the same Code was started", v)
+			}
+			v2, ok2 := it2.Next()
+			if v, ok := it.Next(); ok {
+				return fmt.Sprintf("an exhausted iterator returned (%v, true) after another run of the same Code was advanced", v)
+			}
+			rest := Drain(it2, nil, 59)
+			var all Out
+			if ok2 {
+				if e, isErr := v2.(error); isErr {
+					all.Err = e
+				} else {
+					all.Vals = append([]any{v2}, rest.Vals...)
+					all.Err, all.Budget = rest.Err, rest.Budget
+				}
+			}
+			if got := all.String(); got != want && !strings.Contains(want, "BUDGET") && !strings.Contains(got, "BUDGET") {
+				return fmt.Sprintf("a run started next to an exhausted iterator of the same Code yields %s, alone it yields %s", got, want)
+			}
 		}
 	}
 	return ""
